@@ -28,7 +28,7 @@ STUB_LINES = (
 class Harness:
     def __init__(self, name, crate="hk", features=(), tiers=("quick", "thorough"), covers=0,
                  timeout=900, mem_gb=8, what="", bounds="", sched=False, extra=(), expect_stubs=True,
-                 known=None, unwindset=None):
+                 known=None, unwindset=None, cbmc_args=()):
         self.name = name            # module::function, used with --exact
         self.crate = crate          # hk (plain pal crate) or hs (instrumented drop-in)
         self.features = tuple(features)
@@ -45,6 +45,7 @@ class Harness:
         # contains all the substrings gets bound n instead of the harness-wide one; the unwinding
         # assertion of that loop stays on, so a too-small bound is reported (exit 2), never hidden
         self.unwindset = dict(unwindset or {})
+        self.cbmc_args = tuple(cbmc_args)   # extra CBMC options (e.g. --max-field-sensitivity-array-size)
 
     @property
     def short(self):
@@ -202,10 +203,13 @@ def run_harness(h, logdir, playback=False):
     t0 = time.time()
     timed_out = False
     uw_note = ""
+    cbmc_args = list(h.cbmc_args)
     if h.unwindset:
         labels, uw_note = loop_labels(h, cmd, cdir, log)
         if labels:
-            cmd += ["-Z", "unstable-options", "--cbmc-args", "--unwindset", ",".join("%s:%d" % kv for kv in labels)]
+            cbmc_args += ["--unwindset", ",".join("%s:%d" % kv for kv in labels)]
+    if cbmc_args:
+        cmd += ["-Z", "unstable-options", "--cbmc-args"] + cbmc_args
     with open(log, "w") as lf:
         p = subprocess.Popen(cmd, cwd=cdir, env=ENV, stdout=lf, stderr=subprocess.STDOUT,
                              preexec_fn=_limits(h.mem_gb * 1.6 + 4))
